@@ -95,6 +95,8 @@ def evaluate(ctx, cases, res, world=None, drv=None):
         for a in atts:
             questions.append((ci, model_line(world, cases[ci], a['stdin'], a.get('novars', False))))
     answers, envs = cc.driver_rounds(world, drv, questions, cases, lambda pre, env: ' '.join(pre + env))
+    # the specification oracle: the reader on the documented tables, same inputs
+    sanswers, _ = cc.driver_rounds(world, drv, [(ci, ['spec'] + q[1:]) for ci, q in questions], cases, lambda pre, env: ' '.join(pre + env))
     qi = 0
     for ci, (conf, atts, dropped) in enumerate(runs):
         case = cases[ci]
@@ -102,6 +104,7 @@ def evaluate(ctx, cases, res, world=None, drv=None):
         first = atts[0]
         final = atts[-1]
         for a in atts:
+            a['spec'] = sanswers[qi]
             impl_s = ' '.join([str(a['rc'] if a['rc'] >= 0 else 999), hexs(a['out']), '0', str(len(a['diags']))] + a['diags'])
             if answers[qi] != impl_s:
                 if len(res.disagreements) < 50:
@@ -137,6 +140,46 @@ def oracle(world, case, conf, atts, dropped, accepted, res):
             fail('reject-diagnostic-lacks-file-name', 'exit %d but no diagnostic names the configuration file or the template: %r' % (a['rc'], a['diags'][:3]))
         if a['rc'] == 0 and a['diags']:
             fail('diagnostic-on-success', 'exit 0 with diagnostics %r' % a['diags'][:3])
+    # acceptance and values against the documented grammar/defaults (Conf/ConfInst.v spec_config)
+    sp0 = first['spec'].split()
+    spec_accept = sp0[0] == '0'
+    text = bytes.fromhex(case['text'])
+    if accepted and not spec_accept:
+        if case['mode'] == 'canvas' and re.search(rb'(^|[\s}"])robsddir([\s"{]|$)', text):
+            fail('canvas-accepts-undocumented-robsddir', 'canvas mode accepts a configuration assigning robsddir, a keyword canvas.conf.5 does not have')
+        else:
+            fail('accepts-nonconforming', 'robsd-config accepts a configuration that does not conform to the documented grammar of ' + case['mode'])
+    elif not accepted and spec_accept:
+        fail('rejects-conforming', 'robsd-config rejects a configuration that conforms to the documented grammar of %s: %r' % (case['mode'], first['diags'][:3]))
+    elif accepted:
+        for a in atts[1:]:
+            sp = a['spec'].split()
+            m = re.fullmatch(r's\|(\d+)\|interp:.*', a['diags'][-1]) if a['diags'] else None
+            impl_t = (a['rc'], hexs(a['out']), int(m.group(1)) if m else 0)
+            spec_t = (int(sp[0]), sp[1], int(sp[3]))
+            if impl_t == spec_t or (a['rc'] != 0 and not m):
+                continue          # -v refusals are not a matter of the documented tables
+            if impl_t[0] != spec_t[0] or impl_t[2] != spec_t[2]:
+                ls = a['stdin'].split(b'\n')
+                n = impl_t[2] or spec_t[2]
+                fail('template-outcome-differs', 'line %r of the template: robsd-config exit %d (failing line %d), documented tables exit %d (failing line %d)'
+                     % (ls[n - 1][:60] if 0 < n <= len(ls) else b'', impl_t[0], impl_t[2], spec_t[0], spec_t[2]))
+                break
+            il, sl = a['out'].split(b'\n'), common.unhex(sp[1]).split(b'\n')
+            k = next((i for i in range(min(len(il), len(sl))) if il[i] != sl[i]), min(len(il), len(sl)))
+            line = il[k] if k < len(il) else b''
+            name = line.split(b'=', 1)[0].decode('latin1')
+            rd = [l for l in il if l.startswith(b'rd=')]
+            rep = False
+            for l in rd:
+                v = l[3:].split()
+                rep = rep or any(v[i] == v[i - 1] for i in range(1, len(v)))
+            if rep or name == 'rd':
+                fail('rdomain-repeats-after-wrap', 'successive ${rdomain} references do not cycle through 11..255: first differing output line %r, documented %r'
+                     % (line[:80], (sl[k] if k < len(sl) else b'')[:80]))
+            else:
+                fail('value-differs:' + name, 'variable %s interpolates to %r, documented value %r' % (name, line[:80], (sl[k] if k < len(sl) else b'')[:80]))
+            break
     # rdomain: successive references distinct, cycling through 11..255
     if final['rc'] == 0:
         for l in final['out'].split(b'\n'):
